@@ -149,6 +149,23 @@ def case_model(ctx, inp):
         else:
             impl = Sym("scalar")
         ctx.eq("metaOf vs ._meta (%s expression)" % label, model, impl)
+        # typed lazy schema (dtypes of the arithmetic / comparison / boolean subset) vs the real ._meta
+        tcols = [[str(c), Sym(str(df[c].dtype))] for c in df.columns]
+        if all(str(df[c].dtype) in ("int64", "float64", "bool") for c in df.columns):
+            tmodel = ctx.lean(Sym("dtypeof"), tcols, m)
+            if tmodel == "none" or tmodel is None:
+                ctx.note("dtypeof:outside-typed-fragment")
+            else:
+                if isinstance(meta, pd.DataFrame):
+                    timpl = ["frame", [[str(c), str(meta[c].dtype)] for c in meta.columns]]
+                elif isinstance(meta, pd.Series):
+                    timpl = ["series", str(meta.dtype)]
+                else:
+                    dt = str(getattr(meta, "dtype", type(meta).__name__))
+                    timpl = ["scalar", "int64" if dt == "int" else dt]
+                tm = [str(tmodel[0]), [[str(a), str(b)] for a, b in tmodel[1]]] if tmodel[0] == "frame" else [str(tmodel[0]), str(tmodel[1])]
+                ctx.eq("dtypeOf vs ._meta dtypes (%s expression)" % label, tm, timpl)
+                ctx.branch("model-dtypes-checked")
     check_collection(ctx, "fragment program", coll)
     # computed columns (names, order, DUPLICATES, dtypes) vs pandas and vs ._meta, optimised and unoptimised
     if not tail:
@@ -294,7 +311,70 @@ def case_api(ctx, inp):
         ctx.branch("api-groupby-" + how)
 
 
-CASES = {"model": case_model, "api": case_api}
+# ------------------------------------------------------------------------------------------------
+# the dtype TABLE vs pandas (empty and non-empty operands: value independence)
+# ------------------------------------------------------------------------------------------------
+
+_DTS = ["int64", "float64", "bool"]
+
+
+def _operand(dt, n):
+    import numpy as np
+    import pandas as pd
+    vals = {"int64": [1, -2, 3], "float64": [1.5, np.nan, 3.0], "bool": [True, False, True]}[dt][:n]
+    return pd.Series(vals, dtype=dt)
+
+
+def _result_dtype(f):
+    try:
+        r = f()
+    except TypeError:
+        return "TypeError"
+    return str(r.dtype) if hasattr(r, "dtype") else type(r).__name__
+
+
+def case_dtable(ctx, inp):
+    import operator
+    op = inp["op"]
+    if op == "not":
+        for a in _DTS:
+            model = str(ctx.lean(Sym("notdtype"), Sym(a)))
+            full, empty = _result_dtype(lambda: ~_operand(a, 3)), _result_dtype(lambda: ~_operand(a, 0))
+            if model in ("none", "None"):
+                if a == "bool":
+                    ctx.disagree("~bool must be typed", model, full)
+                continue       # ~int is bitwise (not modelled), ~float raises
+            ctx.eq("dtype of ~%s (non-empty operands)" % a, model, full)
+            ctx.eq("dtype of ~%s (EMPTY operands = what ._meta sees)" % a, model, empty)
+        ctx.branch("dtable-not")
+        return
+    fn = {"add": operator.add, "sub": operator.sub, "mul": operator.mul, "lt": operator.lt, "le": operator.le, "gt": operator.gt,
+          "ge": operator.ge, "eq": operator.eq, "ne": operator.ne, "and": operator.and_, "or": operator.or_}[op]
+    for a in _DTS:
+        for b in _DTS + ["pyint-right", "pyint-left"]:
+            if b == "pyint-right":
+                mk = lambda n: fn(_operand(a, n), 2)
+                model = str(ctx.lean(Sym("bindtype"), Sym(op), Sym(a), Sym("int64")))
+            elif b == "pyint-left":
+                mk = lambda n: fn(2, _operand(a, n))
+                model = str(ctx.lean(Sym("bindtype"), Sym(op), Sym("int64"), Sym(a)))
+            else:
+                mk = lambda n: fn(_operand(a, n), _operand(b, n))
+                model = str(ctx.lean(Sym("bindtype"), Sym(op), Sym(a), Sym(b)))
+            full, empty = _result_dtype(lambda: mk(3)), _result_dtype(lambda: mk(0))
+            if model in ("none", "None"):
+                # untyped entries: pandas raises on data, or `&`/`|` is used bitwise on integers (outside the value model)
+                # (`&`/`|` are typed for bool & bool only: with an int operand they are bitwise, bool & float is bool but
+                # float & bool raises)
+                if full != "TypeError" and op not in ("and", "or"):
+                    ctx.disagree(f"{a} {op} {b}: the table has no dtype but pandas computes one", model, full)
+                continue
+            ctx.eq(f"dtype of {a} {op} {b} (non-empty operands)", model, full)
+            ctx.eq(f"dtype of {a} {op} {b} (EMPTY operands = what ._meta sees)", model, empty)
+    ctx.branch("dtable-" + op)
+
+
+CASES = {"model": case_model, "api": case_api, "dtable": case_dtable}
 
 
 def generate(ctx):
@@ -302,6 +382,8 @@ def generate(ctx):
     # DESIGN.md 6 #27 (fixed 109c7c6) first: cheap regression case
     yield "api", {"source": "groupby", "inp": {"c": ["x", "y", "x", "z"], "v": [1, 2, 3, 4], "w": [0, 1, 0, 1], "nparts": 2,
                                                "how": "size", "split_out": 2}}
+    for op in ["add", "sub", "mul", "lt", "le", "gt", "ge", "eq", "ne", "and", "or", "not"]:
+        yield "dtable", {"op": op}
     streams = []
     for _ in range(ctx.n(55, 2000)):
         inp, names = c43.gen_frame(rng)
